@@ -150,7 +150,7 @@ theorem checkoutNode_fresh_upToDate {ctx : Ctx κ} {s : Store κ} {strat : Strat
       have hhs' : hasSum c.sum = true := by simpa using hhs
       have hhas' : s.has c.sum = true := by simpa using hhas
       simp only [UpToDate, hc, if_true]
-      refine ⟨es', cs, rfl, by simp [statusManifest, hhs', hhas', hcs], ?_, ?_⟩
+      refine ⟨es', cs, rfl, ⟨hhs', hhas'⟩, hcs, ?_, ?_⟩
       · exact checkoutChildren_fresh_upToDate ih cs [] es' (hnd _ _ hcs) (fun _ _ => rfl) hes
       · intro e he
         rcases checkoutChildren_names cs [] es' hes e he with h | ⟨k, hk, hn⟩
